@@ -734,6 +734,10 @@ func createRegionSearchKey(table, key []byte) []byte {
 	// Shorten the key such that the generated meta key is <= MAX_ROW_LENGTH (MaxInt16), otherwise
 	// HBase will throw an exception.
 	keylen := math.MaxInt16 - len(table) - 3
+	if keylen < 0 {
+		// table name alone is too long for a meta key, HBase will reject it
+		keylen = 0
+	}
 	if len(key) < keylen {
 		keylen = len(key)
 	}
